@@ -147,6 +147,13 @@ func parseMouseEvent(seq ansi.CSI) (Mouse, bool)
                         + (seq.Parameters[0][0] & 8  != 0 ? ModAlt   : 0)
                         + (seq.Parameters[0][0] & 16 != 0 ? ModCtrl  : 0)
 
+-- Assumed (unverified) frames of the two Vaxis services the embedded terminal calls from OSC handling:
+-- they talk to the host terminal and touch no emulator state.
+func (vx *Vaxis) QueryBackground() Color
+  modifies nothing
+func (vx *Vaxis) ClipboardPush(b string)
+  modifies nothing
+
 -- Every sequence the parser can deliver (C02's csiDispatch postcondition): inner parameter lists are non-empty.
 func (vx *Vaxis) handleSequence(seq ansi.Sequence)
   requires wf: typeis(seq, "ansi.CSI") ==> CSIWF(unbox(seq, "ansi.CSI"))
